@@ -246,6 +246,7 @@ func replayFile(opt Options, viol violation, rr *RunResult) string {
 		rc["solver_output"] = raw
 		if o.Model != nil {
 			rc["model"] = o.Model
+			rc["goal_skolems"] = o.Skolems
 		}
 		if o.rep != nil {
 			rc["params"] = o.rep.Params
